@@ -352,7 +352,10 @@ CHECKS["C13"] = {
           "immediately before each mutating call of rename, apply, undo, redo and replace on a scenario family, with an independent "
           "oracle (tree in {before, complete}, history entry iff complete, lock released, status), rename's and replace's prompts "
           "through a pty (signal at the prompt, and — prompt answered y — raised before every mutating call of the apply phase "
-          "that follows it), and a self-failing command plus signal. The three behaviours repaired by d01db83 / 279b830 are violations "
+          "that follows it), every mutating command (and the lock holder test-lock) with stderr / stdout connected to a full pipe "
+          "and the signal delivered while the process is blocked in the write, and a self-failing command plus signal. The "
+          "closure registered in real signal context (signal_hook::low_level::register) is extracted and must consist of atomic "
+          "stores only (signal_context_handlers_async_signal_safe). The three behaviours repaired by d01db83 / 279b830 are violations "
           "if they return.",
   "design_ref": "DESIGN.md section 4, C13",
   "technique": "Lean 4 proof (induction over runs = programs with interleaved signal events) + generated handler facts + "
